@@ -73,6 +73,24 @@ CLAIMED = {
         text='Per (row, age factor) one query over every mark k up to past the zero-point: the number fed to the formula equals floor/ceil of k*F/10^4 in exact arithmetic and the formula has the reference structure and coefficients; '
              'factor selection is checked for every age 1..130 with a symbolic age; unknown gender/event pairs give None.',
         note='pow is uninterpreted: whether libm pow lands on the right side of an integer is outside the claim (C09 is not applicable for the same reason). Quick tier samples the (row, factor) queries; thorough runs all 52 rows x every factor column.'),
+    'C02': dict(
+        category='model_checking', design_ref='DESIGN.md section 3 C02, 2.5',
+        technique='one-step induction: the real HighJumpCompetition executed symbolically from a symbolic pre-state (symbolic heights, symbolic result-card strings, flags tied to the cards by a checked invariant) with one arbitrary call; z3 obligations for refusal/acceptance/log/state-order',
+        text='Call histories are not enumerated: every state of the regular phase and of the first jump-off height within the bounds is a solver variable assignment, one real call is executed from it, and the clauses are z3 obligations over '
+             'pre/post terms; the invariant is shown inductive, so histories of any length inside the bounds are covered. Counterexamples are rebuilt through the public API before being reported.',
+        note='Trusted: the regular-phase / first-jump-off-height representation invariant (harness/hj.py), validated on every path by rebuilding the solver witness through the public API and comparing all fields, and inductively by clause inv; z3 LIA. Bounds: quick 2 athletes x 2 heights, thorough 3 x 3; deeper jump-offs and from_matrix parsing are outside.'),
+    'C03': dict(
+        category='model_checking', design_ref='DESIGN.md section 3 C03, 2.5',
+        technique='same one-step symbolic execution; post-state bests and places compared (z3) with the countback ranking computed from the cards alone; jump-off result clauses from first-jump-off-height pre-states',
+        text='After every accepted trial from every symbolic pre-state within the bounds: best == greatest height on the card; whenever the post-state is won/finished/drawn/jumpoff the real places equal countback on the cards; '
+             'a finished competition has one winner; after a jump-off the survivor is first and the other participants stay ahead of those not tied for first.',
+        note='Trusted: the regular-phase / first-jump-off-height representation invariant (harness/hj.py), validated on every path by rebuilding the solver witness through the public API and comparing all fields, and inductively by clause inv; z3 LIA. Bounds: quick 2 athletes x 2 heights, thorough 3 x 3; deeper jump-offs and from_matrix parsing are outside.'),
+    'C08': dict(
+        category='model_checking', design_ref='DESIGN.md section 3 C08, 2.5',
+        technique='diamond (commutation) lemma by symbolic execution of two real calls in both orders from one symbolic pre-state; log-append lemma; card-determines-state by witness rebuild',
+        text='Order independence is decided compositionally: for every pair of athletes and every two trial kinds the two orders are accepted alike and end in observationally equal states (z3 obligation over symbolic pre-states), '
+             'which by induction on adjacent transpositions covers every interleaving that keeps each athlete\'s own sequence; with the log-append lemma and determinism this gives replay equivalence.',
+        note='Trusted: the regular-phase / first-jump-off-height representation invariant (harness/hj.py), validated on every path by rebuilding the solver witness through the public API and comparing all fields, and inductively by clause inv; z3 LIA. Bounds: quick 2 athletes x 2 heights, thorough 3 x 3; deeper jump-offs and from_matrix parsing are outside. to_matrix/from_matrix run on concretised witnesses only.'),
 }
 
 NOT_APPLICABLE = {
